@@ -31,6 +31,12 @@ property oracle on the real code's outputs.  Streams:
   (g) histories of uploads over SIBLING names (x.csv / x.json / x.part / x / x.tar.gz / ...), by one session
       after the other and by two sessions at once; after every completion reply the whole directory is
       read from the backend: every acknowledged file still has its bytes, nothing else exists.
+  (h) the REAL transport (every tier): the same session driver over real sockets on 127.0.0.1:0 on a real
+      event loop -- server backend MemoryPathIO / PathIO / AsyncPathIO and the client's own files on
+      MemoryPathIO / PathIO / AsyncPathIO, both in a fresh directory under the system temp dir -- x verb x
+      restart offset (0 / 1 / mid / block boundaries / size-1 / size / beyond) x size (10 B, one block, 3 blocks
+      + tail, 2 MiB, 8-12 MiB of pairwise distinct blocks) x a receiver throttled below the sender's speed
+      (the sender's transport has to queue).  Only byte equality is asserted, never timing.
 
 Smoke test of the session driver:
     PYTHONPATH=/repo/src:. /venv/bin/python -c "from harness.props import c01; print(c01.smoke())"
@@ -93,7 +99,9 @@ LEVEL_NOTE = (
     "BufferedWriter flushing at close, StreamReader.read (assumption read_conforming: empty only at EOF) and async-with "
     "enter/exit order. Throttling, latency and stalls are inputs of the TIMED model (any wait/append functions, any arrival "
     "instants) and are proved not to change the bytes (C01_*_timing_irrelevant); that the real Throttle only sleeps and counts "
-    "(ThrottleStreamIO.read/write bodies) is a regenerated fact, and the sessions with throttles / latency / stalls sample it. Nothing is carved out since the repair of F14 and F06: back-to-back transfers and REST + upload on a missing file are inside the theorems and the corpus."
+    "(ThrottleStreamIO.read/write bodies) is a regenerated fact, and the sessions with throttles / latency / stalls sample it. "
+    "What only a real transport can exhibit (zero-copy write buffers, sendfile, partial send() with files larger than the socket "
+    "buffers, file position vs. fd offset of real files) is sampled by stream (h) on real loopback sockets, validated not proved. Nothing is carved out since the repair of F14 and F06: back-to-back transfers and REST + upload on a missing file are inside the theorems and the corpus."
 )
 TRUSTED = [
     "read_conforming (hypothesis `conforming` of the model theorems): read(n>=1) of asyncio.StreamReader, io.BytesIO and a regular "
@@ -101,7 +109,8 @@ TRUSTED = [
     "proved for the model's own network/backend readers (C01_network_reads_conforming, C01_file_reads_conforming), exercised "
     "against the real StreamReader / BytesIO / file (streams b), not proved about CPython",
     "the network preserves the byte stream (hypothesis `concat segs = payload`): TCP / the asyncio transports deliver the bytes "
-    "written, in order, once, then EOF; simnet does so by construction, real sockets are not part of this check",
+    "written, in order, once, then EOF; simnet does so by construction; real sockets (asyncio selector transports, kernel buffers, "
+    "loop.sendfile, os-level file objects) are SAMPLED by stream (h), about 200 transfers per run, not modelled",
     "async with a, b enters a then b and exits b then a; the statement after the async with runs after both exits (asyncio / "
     "CPython semantics, used by stor_script)",
     "a backend's close() makes all written bytes visible to other openers (BufferedWriter.close flushes; BytesIO is unbuffered)",
@@ -1975,7 +1984,13 @@ def correspondence(ctx, scale=None):
         "virtual s) DURING multi-block transfers slowed to one block per second, on memory / PathIO / AsyncPathIO / buffering backends; backends "
         "whose close() fails after a partial flush (buffering and real-file spy, limit 12 bytes) x sizes around the limit; (b2) "
         "timed read traces: 0-6 segments at non-decreasing instants (gaps 0..1000) x scripted wait delays (0..5000) x block size, real "
-        "ThrottleStreamIO.read on the virtual clock vs timed_trace (blocks AND instants). A case "
+        "ThrottleStreamIO.read on the virtual clock vs timed_trace (blocks AND instants); (h) the session driver over REAL sockets "
+        "(127.0.0.1:0, real event loop): server backend memory / PathIO / AsyncPathIO x client file system memory / PathIO / AsyncPathIO "
+        "(fresh directory under the system temp dir) x download_stream at REST 0 / 1 / mid / 8191 / 8192 / 8193 / size-1 / size / size+5 x "
+        "upload_stream / append_stream at REST 0 / 1 / mid / size / size+5 onto missing / existing content x upload() / download() x sizes 10, "
+        "8192, 24699, 2 MiB + 17, and files of 8-12 MiB of pairwise distinct random blocks moved with upload() / download() towards a "
+        "receiver throttled to 6 MiB/s (the sender's transport has to queue: partial send(), write buffer between the water marks); "
+        "byte equality with the plain-Python oracle for all, with the model for everything below 40 000 bytes; never a timing assertion. A case "
         "is non-trivial when its full input tuple is distinct (hash); every session case moves real bytes through the real code."
     )
     xcheck = []
